@@ -60,13 +60,41 @@ func c10Prop(c *sim.Case) {
 	var probedLive, probedDead, touchedBeforeAbs bool
 
 	// read performs a read and reconciles the model with what was observed
-	read := func(what string) {
-		// a read observes the session only through data it holds
-		if m.exists && what == "GetTokenResponse" && !m.hasTok {
-			what = "GetAuthorizationState"
+	// touch reads the kind of data the session does NOT hold: nothing is found, but - as both stores have it - the
+	// session has been used; it is neither an observation of the session nor allowed to move its absolute limit
+	touch := func(what string) {
+		now := clk.Now()
+		var found bool
+		var err error
+		if what == "GetTokenResponse" {
+			var t *oidc.TokenResponse
+			t, err = st.GetTokenResponse(ctx, id)
+			found = t != nil
+		} else {
+			var a *oidc.AuthorizationState
+			a, err = st.GetAuthorizationState(ctx, id)
+			found = a != nil
 		}
-		if m.exists && what == "GetAuthorizationState" && !m.hasAuth {
-			what = "GetTokenResponse"
+		c.Logf("t=+%v %s for data the session does not hold -> found=%v err=%v", now.Sub(time.Date(2030, 1, 1, 0, 0, 0, 0, time.UTC)), what, found, err)
+		if found {
+			c.Violation(sig("found-data-never-written"), "%s returned data of a kind that was never written", what)
+		}
+		switch m.judge(now) {
+		case 1:
+			m.lo, m.hi = now, now // certainly alive: this was a use
+		case 0:
+			m.hi = now // may have been alive: may have been a use
+		}
+	}
+	resolving := false // set while a write first settles an "either" state through a real observation
+	read := func(what string) {
+		// a read of a kind of data the session does not hold is a use, not an observation
+		if m.exists && (what == "GetTokenResponse" && !m.hasTok || what == "GetAuthorizationState" && !m.hasAuth) {
+			touch(what)
+			what = map[string]string{"GetTokenResponse": "GetAuthorizationState", "GetAuthorizationState": "GetTokenResponse"}[what]
+			if !resolving && sim.Bool(c, "touch.only") {
+				return
+			}
 		}
 		now := clk.Now()
 		j := m.judge(now)
@@ -111,7 +139,9 @@ func c10Prop(c *sim.Case) {
 	write := func(what string, n int) {
 		// resolve an "either" state first so that the write's effect on the creation time is determined
 		if m.exists && m.judge(clk.Now()) == 0 {
+			resolving = true
 			read("GetTokenResponse")
+			resolving = false
 		}
 		now := clk.Now()
 		if m.exists && m.judge(now) == -1 {
